@@ -261,7 +261,7 @@ class ServerSession:
 class ClientSession:
     """Harness = WebSocket server talking raw bytes to the real client side."""
 
-    def __init__(self, world, compression_options=None, response_ext=None, connect_kwargs=None):
+    def __init__(self, world, compression_options=None, response_ext=None, connect_kwargs=None, use_queue=False):
         import tornado.tcpclient
         from tornado import websocket
         from tornado.iostream import IOStream
@@ -284,9 +284,10 @@ class ClientSession:
         os.urandom = det_urandom
         self._restore = (old_connect, old_urandom)
         try:
+            # use_queue: no callback; the application consumes with read_message() (see drain_queue)
             self.fut = websocket.websocket_connect(
                 "ws://example.com/ws", compression_options=compression_options,
-                on_message_callback=lambda m: rec["messages"].append(m), **(connect_kwargs or {}))
+                on_message_callback=None if use_queue else (lambda m: rec["messages"].append(m)), **(connect_kwargs or {}))
             world.pump()
             self.sock = sockbox["sock"]
             req = bytes(self.sock.sent)
@@ -326,6 +327,24 @@ class ClientSession:
     def restore(self):
         import tornado.tcpclient
         tornado.tcpclient.TCPClient.connect, os.urandom = self._restore
+
+    def drain_queue(self, limit=12):
+        """Consume with read_message() until it returns None; -> True if a read stayed pending."""
+        if getattr(self, "_eos_seen", False):
+            return False
+        for _ in range(limit):
+            f = getattr(self, "_pending_read", None) or self.conn.read_message()
+            self._pending_read = None
+            self.world.pump()
+            if not f.done():
+                self._pending_read = f          # a later drain continues with the same read
+                return True
+            m = f.result()
+            self.rec["messages"].append(m)
+            if m is None:
+                self._eos_seen = True
+                return False
+        return False
 
     def feed(self, data, segs=None):
         if segs:
